@@ -38,10 +38,17 @@ func shuffle(r *Rand, xs []uint64) []uint64 {
 	return out
 }
 
+// sorted: the elements in ascending order, each once (an account map has no validator twice)
 func sorted(xs []uint64) []uint64 {
 	out := append([]uint64{}, xs...)
 	sort.Slice(out, func(i, j int) bool { return out[i] < out[j] })
-	return out
+	uniq := out[:0]
+	for i, x := range out {
+		if i == 0 || x != out[i-1] {
+			uniq = append(uniq, x)
+		}
+	}
+	return uniq
 }
 
 func genDuty(r *Rand, spe, epoch uint64, pool []uint64) Duty {
